@@ -62,7 +62,7 @@ pub fn part() -> Box<dyn Part> {
     Box::new(RandomPart {
         name: "subsystem_events",
         rule: "proptest over the simulator: idle reply listing 1-6 names from the 14 documented subsystems (each one is covered many times), names differing in case, and random [a-zA-Z_]{1,16} names; the delivered events' as_str() must be exactly those names in order. non-trivial = >=2 names or an undocumented name",
-        cases: (3_000, 200_000),
+        cases: (3_000, 2_000_000),
         strategy: Box::new(|_t| {
             let table: Vec<&'static str> = subsystem_table().iter().map(|(_, n)| *n).collect();
             let t2 = table.clone();
